@@ -461,10 +461,15 @@ def C15(tier):
     jobs += [hj("h_source", 6 * m, first=3000, mode="data", flavor="asan", scale=40, timeout=600)]
     # handler re-entrancy is also monitored for timer / fd / signal sources in the cancellation and timer harnesses
     jobs += [hj("h_source", 4 * m, first=4000, mode="cancel"), hj("h_timer", 3 * m, first=4100)]
+    # read and write sources sharing one descriptor (one epoll registration, two unote lists)
+    jobs += [hj("h_duplex", 60 * m, first=0, mode="sources"), hj("h_duplex", 40 * m, first=5000, mode="sources", ncpu=2),
+             hj("h_duplex", 30 * m, first=6000, mode="sources", flavor="asan", scale=50, timeout=600)]
     if tier == "thorough":
         for t in jobs:
             t.timeout = 1800
     floors = {
+        "shared_descriptor_source_trials": 100,
+        "shared_descriptor_handler_invocations": 1000,
         "data_merges": 500000 * (1 if tier == "quick" else 8),
         "data_handler_invocations": 10000,
         "DATA_ADD": 20, "DATA_OR": 20, "DATA_REPLACE": 20,
@@ -478,7 +483,9 @@ def C15(tier):
             "sum delivered == sum merged (ADD), every round's masks delivered and no foreign bit (OR), every delivered value was "
             "merged and the final merge is the last delivered (REPLACE), no invocation with 0, in-handler flag never found set, "
             "merged values delivered after resume (stuck witness otherwise); non-trivial = coalescing happened (fewer invocations "
-            "than merges)")
+            "than merges); the in-handler flag is also monitored on timer, signal and descriptor sources (h_source cancel mode, "
+            "h_timer) and on 2-4 read / write sources sharing one socket (h_duplex --mode=sources: both byte streams must arrive "
+            "complete and in order)")
     return jobs, floors, rule
 
 
@@ -492,12 +499,16 @@ def C16(tier):
     jobs += [hj("h_source", 4 * m, first=3000, mode="cancel", flavor="asan", scale=40, timeout=600),
              hj("h_source", 3 * m, first=3100, mode="cancel", flavor="asan", scale=40, ncpu=2, timeout=600)]
     jobs += [hj("h_timer", 3 * m, first=4100)]
+    # sources sharing one descriptor: cancelling one (from its handler, or from outside half-way) must not disturb the others
+    jobs += [hj("h_duplex", 60 * m, first=10000, mode="sources"), hj("h_duplex", 40 * m, first=15000, mode="sources", ncpu=4),
+             hj("h_duplex", 30 * m, first=16000, mode="sources", flavor="asan", scale=50, timeout=600),
+             hj("h_duplex", 40 * m, first=17000, mode="sources", extra=["--sigstorm=2000"])]
     if tier == "thorough":
         jobs += [hj("h_source", 20 * m, first=9000, mode="cancel", flavor="dbg", timeout=1800)]
         for t in jobs:
             t.timeout = 1800
     floors = {"cancel_cases": 5000 * (1 if tier == "quick" else 8), "epoll_unregistration_verified": 2000,
-              }
+              "shared_descriptor_source_trials": 150, "shared_descriptor_foreign_cancels_with_survivor": 40}
     for p in ["before-activate", "right-after-activate", "from-own-handler", "from-item-on-serial-target", "foreign-while-events-flow",
               "while-suspended", "double-cancel", "cancel_and_wait", "from-registration-handler"]:
         floors["cancel_at_" + p] = 200
@@ -511,7 +522,9 @@ def C16(tier):
             "origin), at most one (foreign origin), cancel handler exactly once, on the target queue (queue-specific marker), after "
             "the last event handler invocation returned, never followed by an event handler, descriptor absent from the library's "
             "epoll set (/proc/self/fdinfo) when the cancel handler runs, cancel_and_wait returns with nothing running and nothing "
-            "started afterwards; trial line = batch of cases")
+            "started afterwards; trial line = batch of cases; plus 2-4 read / write sources sharing one socket (h_duplex --mode=sources), "
+            "each cancelling itself from its handler when its stream is done or cancelled from outside half-way while the survivors "
+            "on the same descriptor carry on: never invoked after the self-cancel, cancel handler once, after the last event handler")
     return jobs, floors, rule
 
 
